@@ -2,6 +2,7 @@ import Afkak.Monitor.C15
 import AfkakProofs.Assign.Facts
 import AfkakProofs.Assign.Metadata
 import AfkakProofs.Assign.Total
+import AfkakProofs.Assign.LoaderFaithful
 /-!
 # C15 — Group assignment gives every partition to exactly one subscribed member
 
@@ -182,6 +183,16 @@ theorem C15_loader_contract (asked : List Str) (replies : List MetaReply) (snap 
     (h : loadTopicPartitions asked replies = some (snap, n)) : loadCovers asked snap = true :=
   loadTopicPartitions_covers h
 
+/-- … and leaves no partition out: when the loader fires after `n` requests, its snapshot holds, for
+    every requested topic, exactly the partition ids the `n`-th metadata reply lists for that topic
+    (monitor `loadFaithful`, evaluated on the real `KafkaClient._load_topic_partitions`) — leader or
+    no leader.  Together with `C15_exactly_once` over that snapshot: every partition the cluster
+    reported for a subscribed topic goes to exactly one member. -/
+theorem C15_loader_faithful (asked : List Str) (replies : List MetaReply) (snap : Dict Str (List Int)) (n : Nat)
+    (h : loadTopicPartitions asked replies = some (snap, n)) :
+    1 ≤ n ∧ ∃ r, replies[n - 1]? = some r ∧ loadFaithful asked r snap = true :=
+  loadTopicPartitions_faithful h
+
 /-- The glue composed with the client's loader: when `_load_topic_partitions` answers (for any
     sequence of replies), the second call cannot ask again — the leader obtains the partition lists
     of every subscribed topic before assigning. -/
@@ -272,6 +283,7 @@ C15_utf8
 C15_wire_members
 C15_leader_outcomes
 C15_loader_contract
+C15_loader_faithful
 C15_leader_glue
 C15_metadata_total
 -/
